@@ -1,5 +1,5 @@
 SPECIFICATION Spec
-CONSTANTS Kinds = {"buf", "hmeta", "geninfo", "cxxref", "bare"}
+CONSTANTS Kinds = {"buf", "hmeta", "stream", "geninfo", "cxxref", "bare"}
   TextLens = {0, 249, 250, 1000}
   NH = 3 NObj = 2 Max = 4 MaxExtra = 1 MaxTries = 2 AsFound = FALSE
 VIEW View
